@@ -377,12 +377,16 @@ n_newlines(0)  --> [].
 separate_digits_fractional(Arg, Sep, Num, Cs) :-
         number_chars(Num, NCs),
         phrase(("~",seq(NCs),"d"), FStr),
-        phrase(format_(FStr, [Arg]), Cs0),
+        phrase(format_(FStr, [Arg]), Cs00),
+        % only digits are grouped: the sign is set aside
+        (   Cs00 = [-|Cs0] -> Cs = [-|Cs1]
+        ;   Cs0 = Cs00, Cs = Cs1
+        ),
         phrase(upto_what(Bs0, .), Cs0, Ds),
         reverse(Bs0, Bs1),
         phrase(groups_of_three(Bs1,Sep), Bs2),
         reverse(Bs2, Bs),
-        append(Bs, Ds, Cs).
+        append(Bs, Ds, Cs1).
 
 upto_what([], W), [W] --> [W], !.
 upto_what([C|Cs], W) --> [C], !, upto_what(Cs, W).
